@@ -28,7 +28,7 @@ var validRunes = []rune{'a', 'Z', '0', ' ', '\n', '\t', 0, 0xe9, 0x6f22, 0x1f469
 // AnyItem draws an item of any kind; depth bounds cell nesting.
 func AnyItem(tokens []string, depth int) *rapid.Generator[Item] {
 	return rapid.Custom(func(t *rapid.T) Item {
-		kinds := []string{"nil", "str", "str", "str", "rune", "int", "i32n", "u8", "f64", "f32", "i64", "u64", "i8", "u16", "c64", "bool", "ints", "bytes", "map", "emap", "sx", "sn", "sns", "psx", "if", "if", "if", "ifp", "tm", "jm", "fmtr", "nstr", "stderr", "fielder", "anonfielder", "nilstr", "nilerr"}
+		kinds := []string{"nil", "str", "str", "str", "rune", "int", "i32n", "u8", "tstr", "f64", "f32", "i64", "u64", "i8", "u16", "c64", "bool", "ints", "bytes", "map", "emap", "sx", "sn", "sns", "psx", "if", "if", "if", "ifp", "tm", "jm", "fmtr", "nstr", "stderr", "fielder", "anonfielder", "nilstr", "nilerr"}
 		if depth > 0 {
 			kinds = append(kinds, "cell", "cell", "pcell")
 		}
@@ -38,6 +38,9 @@ func AnyItem(tokens []string, depth int) *rapid.Generator[Item] {
 		switch k {
 		case "str", "bytes", "sns", "tm", "jm", "nstr", "stderr", "fielder":
 			it.S = str("s")
+		case "tstr":
+			it.S = str("s")
+			it.N = int64(rapid.IntRange(0, 7).Draw(t, "tstr-type"))
 		case "rune":
 			it.N = int64(rapid.SampledFrom(validRunes).Draw(t, "r"))
 		case "int", "i32n", "ints", "fmtr", "anonfielder":
@@ -116,6 +119,8 @@ type ScriptOpts struct {
 	HdrCells    [2]int                 // if HdrCells[1] > 0: header cell count drawn from [HdrCells[0], HdrCells[1]]
 	AllowCopy   bool                   // also generate "copycell" (a by-value copy of an existing cell added to a row) and "newrowother"
 	AllowMutate bool                   // also generate "mutate": change a mutable item and call Cell.Update()
+	AllowProps  bool                   // also generate "prop": property-history steps on the columns in between the build steps
+	AllowRowErr bool                   // also generate "rowerr": Row.AddError on a pending or attached row
 	AllowReAdd  bool                   // also generate "readd": AddRow of a row that is already attached
 }
 
@@ -145,12 +150,19 @@ func ScriptGen(o ScriptOpts) *rapid.Generator[Script] {
 		if !o.SimpleOnly && !o.NoLateAdd {
 			kinds = append(kinds, "burst")
 		}
-		if !o.NoHdr && !o.ForceHdr {
+		if !o.NoHdr && (!o.ForceHdr || o.MultiHdr) {
 			kinds = append(kinds, "hdr")
 		}
 		if o.AllowReAdd {
 			kinds = append(kinds, "readd")
 		}
+		if o.AllowProps {
+			kinds = append(kinds, "prop", "prop")
+		}
+		if o.AllowRowErr {
+			kinds = append(kinds, "rowerr")
+		}
+		propKeys := []string{"align", "align", "skip", "skip", "u0", "u1", "u2"}
 		if o.AllowMutate {
 			kinds = append(kinds, "mutate", "mutate")
 		}
@@ -165,6 +177,9 @@ func ScriptGen(o ScriptOpts) *rapid.Generator[Script] {
 			c := 0
 			if label == "hn" && o.HdrCells[1] > 0 {
 				c = rapid.IntRange(o.HdrCells[0], o.HdrCells[1]).Draw(t, label)
+				if o.HeavyTail > o.HdrCells[1] && Rarely(t, label+"-tail", 10) {
+					c = rapid.IntRange(o.HdrCells[1], o.HeavyTail).Draw(t, label+"-big")
+				}
 			} else {
 				c = o.cellCount(t, label)
 			}
@@ -202,6 +217,14 @@ func ScriptGen(o ScriptOpts) *rapid.Generator[Script] {
 				rows = append(rows, rk{attached: true, sep: true})
 			case "appendnew":
 				rows = append(rows, rk{attached: true})
+			case "prop":
+				// the highest column of the moment (-1), the defaults column (0) and the first few
+				op.P = &PropOp{Col: rapid.SampledFrom([]int{0, 0, -1, -1, 1, 2, 3}).Draw(t, "pcol"), Key: rapid.SampledFrom(propKeys).Draw(t, "pkey"), Val: rapid.IntRange(0, 3).Draw(t, "pval")}
+			case "rowerr":
+				if len(rows) == 0 {
+					continue
+				}
+				op.Ref = rapid.IntRange(0, len(rows)-1).Draw(t, "ref")
 			case "burst":
 				// several rows made one after the other (in the table, or pending) and then grown in turns, each
 				// beyond the width the table had when the row was made
